@@ -147,7 +147,7 @@ that rounding alone can flip -/
 def fTiny : Float := Float.ofBits 0x0000000000000400
 
 /-- "this value's sign / zero-ness could be flipped by rounding" -/
-def FB.ambiguous (x : FB) : Bool := x.err > 0.0 && x.v.abs ≤ 8.0 * x.err
+def FB.ambiguous (x : FB) : Bool := x.err.isNaN || (x.err > 0.0 && x.v.abs ≤ 8.0 * x.err)
 
 def fmax (a b : Float) : Float := if a ≥ b then a else b
 def fmin (a b : Float) : Float := if a ≤ b then a else b
